@@ -284,6 +284,13 @@ func main() {
 					h = fields[1]
 				}
 				done <- doLex(h, 4*len(h)+16)
+			case "S":
+				var names []string
+				for _, f := range fields[1:] {
+					n, _ := strconv.Atoi(f)
+					names = append(names, _TokenToString(n))
+				}
+				done <- strings.Join(names, " ")
 			case "X":
 				h := ""
 				if len(fields) > 1 {
